@@ -10,6 +10,7 @@ mod pipe;
 mod readn;
 mod stream;
 mod tlv;
+mod vt;
 mod util;
 
 fn main() {
@@ -22,6 +23,7 @@ fn main() {
     match args[1].as_str() {
         "deque" => deque::drive_deque(&args[2], &args[3]),
         "codec" => codec::drive_codec(&args[2], &args[3]),
+        "vt" => vt::drive_vt(&args[2], &args[3]),
         "tlv" => tlv::drive_tlv(&args[2], &args[3]),
         "readn" => readn::drive_readn(&args[2], &args[3]),
         "footprint" => footprint::drive_footprint(&args[2], &args[3]),
